@@ -365,9 +365,11 @@ def run_label_group(case, ctx):
         ft = sf.Frame.from_records([list(range(n)), [i * 2 for i in range(n)]], index=('p', 'q'), columns=ih, name='fn')
         ctx.state(('LG', tuples))
         rows = frame_rows(f)
-        for depth in (0, 1, [0, 1], [1, 0]):
-            keys = [t[depth] if not isinstance(depth, list) else tuple(t[d_] for d_ in depth) for t in tuples]
-            info = dict(tuples=tuples, depth=depth)
+        # the depth selection as an int, a list, and the other iterables a caller may give (tuple, one-element tuple / list, range, integer array): any iterable gives tuple keys
+        for depth in (0, 1, [0, 1], [1, 0], (0, 1), (1, 0), (1,), [0], range(2), np.array([1, 0])):
+            dl = None if isinstance(depth, int) else [int(d_) for d_ in depth]
+            keys = [t[depth] if dl is None else tuple(t[d_] for d_ in dl) for t in tuples]
+            info = dict(tuples=tuples, depth=repr(depth))
             ctx.transition(3)
             if n >= 2:
                 ctx.nontriv(('lg', tuples, repr(depth)))
@@ -388,6 +390,31 @@ def run_label_group(case, ctx):
             except Exception as e:
                 ctx.violation(f'iter_group_labels|raises|{type(e).__name__}|depth={depth}', **info, error=repr(e))
         ctx.outcome('label_group')
+    # flat labels on the columns of a grow-only Frame that has just grown and has not been read since: one group per (distinct) label, straight after the growth
+    for start in range(0, n + 1):
+        labs = ['c%d' % i for i in range(n)]
+        for how in ('items', 'values', 'apply'):
+            ctx.transition()
+            g = sf.FrameGO.from_items(((l, arr([i, i + 10], 'int64')) for i, l in enumerate(labs[:start])), index=('p', 'q')) if start else sf.FrameGO(index=('p', 'q'))
+            for i, l in enumerate(labs[start:], start):
+                g[l] = arr([i, i + 10], 'int64')
+            ctx.state(('LG-go', n, start, how))
+            if start < n:
+                ctx.nontriv(('LG-go', n, start, how))
+            info = dict(columns=labs, columns_present_at_construction=start, read_through=how)
+            try:
+                if how == 'items':
+                    got = [(k, gg.columns.values.tolist(), gg.values.tolist()) for k, gg in g.iter_group_labels_items(0, axis=1)]
+                elif how == 'values':
+                    got = [(gg.columns.values.tolist()[0], gg.columns.values.tolist(), gg.values.tolist()) for gg in g.iter_group_labels(0, axis=1)]
+                else:
+                    r = g.iter_group_labels(0, axis=1).apply(lambda gg: int(gg.values[0, 0]))
+                    got = [(k, [k], [[v], [v + 10]]) for k, v in r.items()]
+                exp = [(l, [l], [[i], [i + 10]]) for i, l in enumerate(labs)]
+                if got != exp:
+                    ctx.violation(f'frame.iter_group_labels|axis=1|grown-FrameGO|{how}', **info, got=got, expected=exp)
+            except Exception as e:
+                ctx.violation(f'frame.iter_group_labels|axis=1|grown-FrameGO|{how}|raises|{type(e).__name__}', **info, error=repr(e))
     ctx.sample({'family': 'label_group', 'n': n}, limit=1)
 
 
@@ -533,9 +560,19 @@ def run_window_hier(case, ctx):
         other = sf.IndexHierarchy.from_labels(other_hier) if other_is_hier else sf.Index(other_flat)
         data = np.arange(n * 2).reshape(n, 2)
         f = sf.Frame(data, index=moving, columns=other) if axis == 0 else sf.Frame(data.T, index=other, columns=moving)
-        ctx.state(('window-hier', n, moving_hier, other_is_hier, axis, size))
-        ctx.nontriv(('window-hier', n, moving_hier, other_is_hier, axis, size))
-        info = dict(n=n, moving_axis_hierarchical=moving_hier, other_axis_hierarchical=other_is_hier, axis=axis, size=size)
+        for klass in ('Frame', 'FrameGO'):
+            if klass == 'FrameGO':
+                f = f.to_frame_go()
+            _window_hier_one(ctx, f, klass, n, hier, flat, moving_hier, other_is_hier, axis, size)
+    ctx.outcome('window-hier')
+    ctx.sample({'family': 'window-hier', 'n': n}, limit=1)
+
+
+def _window_hier_one(ctx, f, klass, n, hier, flat, moving_hier, other_is_hier, axis, size):
+    if True:
+        ctx.state(('window-hier', klass, n, moving_hier, other_is_hier, axis, size))
+        ctx.nontriv(('window-hier', klass, n, moving_hier, other_is_hier, axis, size))
+        info = dict(n=n, container=klass, moving_axis_hierarchical=moving_hier, other_axis_hierarchical=other_is_hier, axis=axis, size=size)
         mlabels = hier if moving_hier else flat
         exp = [(mlabels[i], list(range(i - size + 1, i + 1))) for i in range(size - 1, n)]
         for form in ('iter_window', 'iter_window_array', 'iter_window_items', 'iter_window_array_items'):
@@ -551,8 +588,6 @@ def run_window_hier(case, ctx):
                     ctx.violation(f'window-hier|{form}.apply|labels-or-values', **info, got=(type(r.index).__name__, got_labels, r.values.tolist()), expected=[l for l, _ in exp])
             except Exception as e:
                 ctx.violation(f'window-hier|{form}.apply|raises|{type(e).__name__}', **info, error=repr(e))
-    ctx.outcome('window-hier')
-    ctx.sample({'family': 'window-hier', 'n': n}, limit=1)
 
 
 def run_case(case, ctx):
